@@ -361,9 +361,52 @@ def gen_seek_window(rng):
             "ops": ops, "disciplined": True, "targeted": "seek-window", "srv_unbuffered": rng.random() < 0.5}
 
 
+def gen_append_window(rng):
+    """Targeted, still disciplined: a+ files.  Seek back from EOF, a read that leaves read-ahead, a write that
+    reaches the stream (unbuffered write, flush(), or the flush a read performs first), then read-type calls and
+    flush+tell with NO seek in between: after an append the position is at EOF, so they must return nothing."""
+    bufsize = rng.choice([-1, 0, 1, 2, 8, 32, 64, 200, 8192, rng.randrange(2, 300)])
+    n = rng.randrange(8, 120)
+    init = bytes(rng.choice(ALPHA) for _ in range(n))
+    length = n
+    ops = []
+    for _ in range(rng.randrange(1, 6)):
+        ops.append(("s", rng.randrange(0, length + 1), 0) if rng.random() < 0.85 else ("s", 0, rng.choice([1, 2])))
+        # a read that (for bufsize > 1, or via readline) pulls more than it returns
+        ops.append(rng.choice([("r", rng.randrange(1, 6)), ("l", None), ("l", rng.randrange(1, 6)), ("r", 1)]))
+        if rng.random() < 0.2:
+            ops.append(rng.choice([("r", 2), ("l", None)]))
+        d = bytes(rng.choice(b"XYZ#\n") for _ in range(rng.randrange(1, 9)))
+        ops.append(("w", d))
+        length += len(d)
+        how = rng.random()
+        if how < 0.35:
+            ops.append(("f",))
+        # else: unbuffered write went out already, or the next read flushes first
+        for _ in range(rng.randrange(1, 4)):
+            k = rng.choice(["r", "r", "l", "L", "ft", "rall"])
+            if k == "r":
+                ops.append(("r", rng.randrange(1, 12)))
+            elif k == "l":
+                ops.append(("l", None))
+            elif k == "L":
+                ops.append(("L", None))
+            elif k == "rall":
+                ops.append(("r", None))
+            else:
+                ops.append(("f",))
+                ops.append(("t",))
+    ops = ops[:40] + [("c",)]
+    return {"mode": "a+", "bufsize": bufsize, "pipelined": rng.random() < 0.4, "init": init,
+            "maxreq": rng.choice([None, 5, 64]), "ops": ops, "disciplined": True, "targeted": "append-window",
+            "srv_unbuffered": rng.random() < 0.5}
+
+
 def gen_program(rng, big=False):
     x = rng.random()
-    if x < 0.2 and not big:
+    if x < 0.1 and not big:
+        return gen_append_window(rng)
+    if x < 0.25 and not big:
         return gen_seek_window(rng)
     if x < 0.55:
         return gen_disciplined(rng, big)
